@@ -1239,6 +1239,9 @@ def m_into_iter(it, ctx, a, m, f):
     v = a[0]
     if isinstance(v, Iter):
         return v
+    hs = deref(v)
+    if isinstance(hs, Adt) and hs.ty == 'StdHashSet':
+        return m_hset_iter(it, ctx, a, m, f)
     if isinstance(v, Ref):
         inner = v.get()
         if isinstance(inner, list):
@@ -1432,6 +1435,11 @@ def m_collect_btreeset(it, ctx, a, m, f):
 
 @model(r'Iterator>::collect::<(IndexSet|FnvIndexSet|HashSet)<')
 def m_collect_indexset(it, ctx, a, m, f):
+    if m.group(1) == 'HashSet' and _random_hasher(f):
+        out = []
+        for x in deref(a[0]).rest():
+            _iset_insert(ctx, out, x)
+        return Adt('StdHashSet', None, [out], ['items'])
     out = []
     for x in deref(a[0]).rest():
         _iset_insert(ctx, out, x)
@@ -1456,6 +1464,60 @@ def m_coll_len(it, ctx, a, m, f):
 @model(r'^BTreeSet::<.*>::(into_iter|iter)$')
 def m_set_iter(it, ctx, a, m, f):
     return Iter(L(a[0]))
+
+
+# ---------------------------------------------------------------- std HashSet with the default hasher: iteration order is random per instance
+def _random_hasher(f):
+    """does the (normalised) callee name a std hash container without a fixed hasher parameter?"""
+    return not re.search(r'BuildHasher|Fnv|Fx|AHash|ahash', f)
+
+
+def _nondet_iteration(ctx, what, n):
+    """iterating a RandomState-hashed container with >= 2 elements yields an order that differs from run to run: recorded on the
+    path (C08's determinism clause reads it); execution continues with one arbitrary order (reversed insertion order)."""
+    if n >= 2:
+        ctx.__dict__.setdefault('nondet_iterations', []).append(what)
+
+
+@model(r'^HashSet::<.*>::(len|is_empty)$')
+def m_hset_len(it, ctx, a, m, f):
+    v = deref(a[0])
+    lst = v.fields[0] if isinstance(v, Adt) and v.ty == 'StdHashSet' else L(v)
+    return len(lst) if m.group(1) == 'len' else len(lst) == 0
+
+
+@model(r'^HashSet::<.*>::(new|with_capacity)$|<HashSet<.*> as Default>::default$')
+def m_hset_new(it, ctx, a, m, f):
+    return Adt('StdHashSet', None, [[]], ['items']) if _random_hasher(f) else []
+
+
+@model(r'^HashSet::<.*>::insert$')
+def m_hset_insert(it, ctx, a, m, f):
+    v = deref(a[0])
+    return _iset_insert(ctx, v.fields[0] if isinstance(v, Adt) and v.ty == 'StdHashSet' else L(v), a[1])
+
+
+@model(r'^HashSet::<.*>::contains::<')
+def m_hset_contains(it, ctx, a, m, f):
+    v = deref(a[0])
+    lst = v.fields[0] if isinstance(v, Adt) and v.ty == 'StdHashSet' else L(v)
+    x = deref(a[1])
+    return b_or(*[struct_eq(ctx, x, y) for y in lst]) if lst else False
+
+
+@model(r'^HashSet::<.*>::(iter|into_iter|drain)$|^<&?HashSet<.*> as IntoIterator>::into_iter$')
+def m_hset_iter(it, ctx, a, m, f):
+    v = deref(a[0])
+    if isinstance(v, Adt) and v.ty == 'StdHashSet':
+        lst = v.fields[0]
+        _nondet_iteration(ctx, 'HashSet iteration (%s)' % f[:80], len(lst))
+        order = list(reversed(lst))
+        if 'drain' in f:
+            v.fields[0] = []
+        byref = isinstance(a[0], Ref) and 'drain' not in f
+        return Iter(refs_of(order) if byref else order)
+    lst = L(v)
+    return Iter(refs_of(lst) if isinstance(a[0], Ref) else lst)
 
 
 # ---------------------------------------------------------------- IndexSet<Cow<str>> (dynamic props) / IndexSet generally
